@@ -27,8 +27,54 @@ func init() {
 	})
 }
 
+// c10Huge (thorough tier only): notation round trip of a list of 2^20 + 5 and 2^21 + 65537 IDs.
+func c10Huge(c *core.Case) {
+	r := c.R
+	n := []int{1<<20 + 5, 1<<21 + 65537}[c.I]
+	c.Tag("list>=2^20")
+	c.NonTrivial()
+	c.Procs()
+	sq := make([]ref.ID, n)
+	for i := range sq {
+		z := genZoom(r)
+		sq[i] = genID(r, z, z, z, z)
+	}
+	sp, ex := ref.Spatials(sq), ref.Exts(sq)
+	c.KS(sp[0], sp[n-1])
+	c.KI(int64(n))
+	c.Desc = func() any { return map[string]any{"list_length": n, "first": sp[0], "last": sp[n-1]} }
+	gotEx, err := shape.ConvertSpatialIdsToExtendedSpatialIds(sp)
+	c.Call()
+	if err != nil || len(gotEx) != n {
+		c.Fail("notation-length", nil, "ConvertSpatialIdsToExtendedSpatialIds on %d IDs: %d outputs, err %v", n, len(gotEx), err)
+		return
+	}
+	for i := range ex {
+		if gotEx[i] != ex[i] {
+			c.Fail("notation-permutation", nil, "ConvertSpatialIdsToExtendedSpatialIds on %d IDs: element %d: %q -> %q, want %q", n, i, sp[i], gotEx[i], ex[i])
+			return
+		}
+	}
+	back, err := shape.ConvertExtendedSpatialIdsToSpatialIds(gotEx)
+	c.Call()
+	if err != nil || len(back) != n {
+		c.Fail("notation-roundtrip", nil, "spatial->extended->spatial on %d IDs: %d outputs, err %v", n, len(back), err)
+		return
+	}
+	for i := range sp {
+		if back[i] != sp[i] {
+			c.Fail("notation-roundtrip", nil, "spatial->extended->spatial on %d IDs: element %d: %q came back as %q", n, i, sp[i], back[i])
+			return
+		}
+	}
+}
+
 func runC10(c *core.Case) {
 	r := c.R
+	if c.Tier == "thorough" && c.I < 2 {
+		c10Huge(c)
+		return
+	}
 	n := r.Intn(11)
 	var sq []ref.ID // h == v IDs for the notation round trip
 	for i := 0; i < n; i++ {
@@ -45,6 +91,7 @@ func runC10(c *core.Case) {
 			sq = append(sq, genID(r, z, z, z, z))
 		}
 		c.Tag("very-long-list")
+		c.Procs()
 	} else if r.P(0.004) { // long lists around batch sizes: length and order must survive chunking/parallelisation
 		for n := longLen(r); len(sq) < n; {
 			z := genZoom(r)
@@ -63,6 +110,19 @@ func runC10(c *core.Case) {
 			e.H = clampI(e.V+r.Range(-4, 4), 0, 35)
 			e.X, e.Y = edgeIndex(r, pow2(e.H)), edgeIndex(r, pow2(e.H))
 		}
+	}
+	if r.P(0.0015) { // large expansion (2^16 .. 2^18 spatial IDs) under a hostile scheduler width
+		d := r.Range(8, 9)
+		e.H = r.Range(0, 35-d)
+		e.V = e.H + d
+		e.X, e.Y, e.F = edgeIndex(r, pow2(e.H)), edgeIndex(r, pow2(e.H)), edgeF(r, e.V)
+		if r.P(0.3) { // vertical expansion of the same size
+			e.V = r.Range(0, 18)
+			e.H = e.V + r.Range(16, 17)
+			e.X, e.Y, e.F = edgeIndex(r, pow2(e.H)), edgeIndex(r, pow2(e.H)), edgeF(r, e.V)
+		}
+		c.Procs()
+		c.Tag("expansion>=2^16")
 	}
 	es := e.Ext()
 	var obs []string
